@@ -51,6 +51,29 @@ func init() {
 			fail("processReady no longer persists (`if raft.IsEmptySnap(rd.Snapshot) && shouldWaitWALSync(&rd) { … rc.persistRaftState(&rd) … }`) before the statement that calls rc.publishEntries")
 		}
 		g.def("processReady", pos(fp), "early persist under shouldWaitWALSync precedes publishEntries", "def persistPrecedesPublish : Bool := true")
+		// the snapshot of index i is taken INSIDE the apply loop and the loop goes on only when the engine checkpoint is complete:
+		// kvStoreSM.GetSnapshot waits (si.WaitReady()) for the channel that the engines' checkpoint Save closes AFTER the
+		// checkpoint call returned (fix 2bce29a), so the checkpoint named (term, i) cannot contain entry i+1
+		anchor("GetSnapshot")
+		gs := norm(src(findFunc("node/state_machine.go", "kvStoreSM.GetSnapshot").Body))
+		i1 := strings.Index(gs, "si.BackupInfo = kvsm.store.Backup(term, index)")
+		i2 := strings.Index(gs, "si.WaitReady()")
+		i3 := strings.Index(gs, "return &si, nil")
+		if i1 < 0 || i2 < i1 || i3 < i2 {
+			fail("GetSnapshot no longer waits (si.WaitReady()) between store.Backup(term, index) and its return")
+		}
+		anchor("checkpointSaveNotify")
+		for _, e := range [][3]string{{"engine/pebble_eng.go", "pebbleEngCheckpoint.Save", "err := pck.pe.eng.Checkpoint(path)"},
+			{"engine/rockeng.go", "rockEngCheckpoint.Save", "err := rck.ck.Save(path, math.MaxUint64)"}} {
+			b := norm(src(findFunc(e[0], e[1]).Body))
+			j1 := strings.Index(b, e[2])
+			j2 := strings.Index(b, "close(notify)")
+			if j1 < 0 || j2 < j1 || strings.Count(b, "close(notify)") != 1 {
+				fail("%s no longer closes the notify channel AFTER the engine's checkpoint call returned", e[1])
+			}
+		}
+		g.def("snapshotWaits", "node/state_machine.go, engine/*", "GetSnapshot: Backup; WaitReady; return — the engines close the awaited channel after their checkpoint call returned",
+			"def snapshotWaitsForCheckpoint : Bool := true")
 		g.write()
 	}
 }
